@@ -33,8 +33,11 @@ def make_replay(pid, r, d, key, tier, seed, i):
         _t0 = _time.time()
         try:
             import witness
-            pair = ('dev', 'release') if (pid == 'C20' and key.get('kind') == 'overflow') else None
+            # an implicit panic site shows as a difference between a build with and one without overflow checks
+            pair = ('dev', 'release') if str(key.get('kind') or '').startswith('overflow') else None
             w = witness.search(pid, r, d, key, tier, seed, profile_pair=pair)
+            if w is None and pair is not None and pid != 'C20':
+                w = witness.search(pid, r, d, key, tier, seed, profile_pair=None)
         except Exception as ex:      # the search is best effort; the violation stands without an input
             rec['witness_search_error'] = str(ex)[:500]
             w = None
